@@ -30,6 +30,15 @@ def _param_map(stmt) -> dict:
     return dict(stmt.params)
 
 
+def _payload_key(e):
+    """'k' for data["k"] / data.get("k")"""
+    if isinstance(e, ast.Subscript) and norm(e.value) == "data" and isinstance(e.slice, ast.Constant):
+        return e.slice.value
+    if isinstance(e, ast.Call) and norm(e.func) == "data.get" and e.args and isinstance(e.args[0], ast.Constant):
+        return e.args[0].value
+    return None
+
+
 def run(ctx, rep) -> None:
     prog = ctx.prog
     rep.rule("C19.R1", "dataclass fields (minus listed exemptions) = INSERT columns = parameter keys = constructor keywords of the row converter ⊆ DDL columns, per entity")
@@ -187,11 +196,23 @@ def run(ctx, rep) -> None:
     # enum-typed fields of every message are restored by name
     des = prog.func("stabilize.queue.sqlite.serialization", "deserialize_message").node
     restored = {}
+    # locals that alias one payload field: v = data.get("k") / data["k"]
+    local_src: dict = {}
+    for n in ast.walk(des):
+        if isinstance(n, ast.Assign) and len(n.targets) == 1 and isinstance(n.targets[0], ast.Name):
+            k = _payload_key(n.value)
+            if k is not None:
+                local_src[n.targets[0].id] = k if n.targets[0].id not in local_src else "?"      # re-assigned: ambiguous
     for n in ast.walk(des):
         if isinstance(n, ast.Assign) and isinstance(n.targets[0], ast.Subscript) and norm(n.targets[0].value) == "data" and isinstance(n.targets[0].slice, ast.Constant):
-            m = re.fullmatch(r"(\w+)\[data\[['\"](\w+)['\"]\]\]", norm(n.value))
-            if m:
-                restored[n.targets[0].slice.value] = m.group(1)
+            v = n.value
+            if isinstance(v, ast.Subscript) and isinstance(v.value, ast.Name):
+                src = _payload_key(v.slice) or (local_src.get(v.slice.id) if isinstance(v.slice, ast.Name) else None)
+                tgt = n.targets[0].slice.value
+                if src == tgt:
+                    restored[tgt] = v.value.id
+                elif src is not None:
+                    rep.fail("C19.R5", f"deserialize_message: data[{tgt!r}] restored from payload field {src!r}", "an enum field is rebuilt from a different field of the payload: the delivered message differs from the one pushed", "src/stabilize/queue/sqlite/serialization.py", n.lineno, disc=f"enum-source:{tgt}:{src}")
     enum_fields = {}
     for name, ci in mm.classes.items():
         for f, node in all_fields(prog, ci).items():
